@@ -81,11 +81,14 @@ theorem C07_timeout_consumed (en : Entry) (o : Opts) (r : Request) (v0 : Bytes) 
 /-- **Request direction, end to end, against what the client sent** (all five entry points, all
     configurations).  An entry `(k', vs)` reaches the target only if `k'` is not `grpc-timeout` and
     some allow-listed `a` is renamed onto `k'`, and every value is one the client sent under a name
-    equal to `a` up to ASCII case — base64-decoded when the forwarded key is binary. -/
+    equal to `a` up to ASCII case — base64-decoded when the forwarded key is binary.  `wireItems` is what
+    the client sent in wire form: exactly `items` on the four web entry points, and on the proxy entry the
+    client's metadata with its binary values re-encoded by `wireFormMetadata` (see `C07_proxy_spec` for the
+    statement against the binary values themselves). -/
 theorem C07_target_only_allowed (en : Entry) (o : Opts) (r : Request) (e : Bytes × List Bytes)
     (h : e ∈ targetMD en o r) :
     e.1 ≠ timeoutKey ∧ ∃ a ∈ o.allowReq, e.1 = rename o.prefixReq a ∧
-      ∀ v ∈ e.2, ∃ p ∈ items en r, lower p.1 = lower a ∧
+      ∀ v ∈ e.2, ∃ p ∈ wireItems en r, lower p.1 = lower a ∧
         (if hasBinSuffix (renameRaw o.prefixReq a) then decodeBinHeader p.2 = some v else p.2 = v) := by
   rw [C07_all_entries] at h
   obtain ⟨hm, hk⟩ := mem_delete _ _ e h
@@ -110,10 +113,12 @@ theorem C07_target_only_allowed (en : Entry) (o : Opts) (r : Request) (e : Bytes
     (`VIOL` iff it is false): on the four web entry points the model always meets it. -/
 theorem C07_reqSpec_web (en : Entry) (o : Opts) (r : Request) (hw : en.wire = true) :
     reqSpec true o (items en r) (targetMD en o r) = true := by
+  have hitems : wireItems en r = items en r := by cases en <;> first | rfl | (simp [Entry.wire] at hw)
   unfold reqSpec
   rw [List.all_eq_true]
   intro e he
   obtain ⟨hk, a, ha, h1, h2⟩ := C07_target_only_allowed en o r e he
+  rw [hitems] at h2
   simp only [Bool.and_eq_true, bne_iff_ne, ne_eq]
   refine ⟨hk, ?_⟩
   unfold entryOK
@@ -129,22 +134,21 @@ theorem C07_reqSpec_web (en : Entry) (o : Opts) (r : Request) (hw : en.wire = tr
   · rename_i hb; simp [hb, hpv]
   · rename_i hb; simp [hb, hpv]
 
-/- FULL STATEMENT wanted for the gRPC proxy entry (values arrive from grpc-go ALREADY binary, so
-   the admissible form is the value itself):
-     ∀ o r, reqSpec false o (items .proxy r) (targetMD .proxy o r) = true
-   It is FALSE for the code as it is (D13, `C07_proxy_bin_fails`): `filterRequest` base64-decodes
-   `-bin` values a second time.  What does hold: -/
-
-/-- gRPC proxy entry, partial: licensed exactly, provided no allow-listed name is forwarded under a
-    binary (`-bin`) key.  (The "only if allow-listed" half — `C07_target_only_allowed` — holds on
-    the proxy without this proviso.) -/
-theorem C07_proxy_partial (o : Opts) (r : Request)
-    (hnb : ∀ a ∈ o.allowReq, hasBinSuffix (renameRaw o.prefixReq a) = false) :
+/-- **gRPC proxy entry, full statement** (after fix D13: `StreamHandler` hands `Forward` the metadata in wire
+    form).  grpc-go delivers the values of `-bin` keys ALREADY binary, so the admissible form of such a value is
+    the value ITSELF: everything the target receives is licensed by the allow-list, binary values arrive as
+    exactly the bytes the gRPC client sent, text values are treated as on the web entry points.  The proviso
+    only excludes configurations that turn a binary name into a text name (the gateway prefix stripped from the
+    degenerate `grpc-metadata--bin` / `grpc-metadata-bin`, or the bare name `-bin` without a prefix). -/
+theorem C07_proxy_spec (o : Opts) (r : Request) (hn : r.normalise = true)
+    (hkeys : ∀ a ∈ o.allowReq, grpcBin a = true → hasBinSuffix (renameRaw o.prefixReq a) = true) :
     reqSpec false o (items .proxy r) (targetMD .proxy o r) = true := by
   unfold reqSpec
   rw [List.all_eq_true]
   intro e he
   obtain ⟨hk, a, ha, h1, h2⟩ := C07_target_only_allowed .proxy o r e he
+  have hw : wireItems .proxy r = flatten (wireFormMetadata r.hdr) := by simp [wireItems, hn]
+  rw [hw] at h2
   simp only [Bool.and_eq_true, bne_iff_ne, ne_eq]
   refine ⟨hk, ?_⟩
   unfold entryOK
@@ -154,20 +158,62 @@ theorem C07_proxy_partial (o : Opts) (r : Request)
   refine ⟨h1.symm, ?_⟩
   intro v hv
   obtain ⟨p, hp, hpk, hpv⟩ := h2 v hv
-  refine ⟨p, hp, hpk, ?_⟩
+  obtain ⟨w, hwm, hpw⟩ := mem_flatten_wire r.hdr p hp
+  refine ⟨(p.1, w), hwm, hpk, ?_⟩
   unfold admissible
-  rw [hnb a ha] at hpv
-  simp at hpv
-  simp [hpv]
+  by_cases hb : grpcBin p.1 = true
+  · -- binary for grpc-go: re-encoded by the entry point, decoded once by the filter ⇒ the client's bytes
+    have hka : grpcBin a = true := by rw [← grpcBin_congr p.1 a hpk]; exact hb
+    rw [hkeys a ha hka] at hpv
+    simp only [↓reduceIte] at hpv
+    rw [hpw, if_pos hb, decodeBin_encodeStd] at hpv
+    simp only [hb, Bool.not_false, Bool.true_and, ↓reduceIte, beq_iff_eq]
+    exact (Option.some.inj hpv).symm
+  · rw [hpw, if_neg hb] at hpv
+    simp only [hb, Bool.and_false, Bool.false_eq_true, ↓reduceIte]
+    split at hpv
+    · rename_i hb'; simp [hb', hpv]
+    · rename_i hb'; simp [hb', hpv]
 
-/-- D13, kernel-checked negative witness: allow-list `x-bin`; a gRPC client sends the 4 bytes `QUJD`
-    as binary metadata `x-bin`; grpc-go hands the proxy those 4 bytes; the target receives the
-    3 bytes `ABC` — not what the client sent. -/
+/-- `decodeBinHeader (base64.StdEncoding.EncodeToString b) = b` for EVERY byte string `b` (model of
+    encoding/base64: induction over 3-byte groups, the two padded endings, `len % 4 = 0` ⇒ the StdEncoding branch). -/
+theorem C07_base64_roundtrip (b : Bytes) : decodeBinHeader (encodeStd b) = some b := decodeBin_encodeStd b
+
+/-- **Binary metadata round trip on the proxy entry**: for EVERY prefix, every binary key `k` (not
+    gateway-prefixed) on the allow-list and EVERY non-empty list of byte strings `vs` — valid base64 text,
+    invalid base64, empty, 0x00/0xff, anything — that a gRPC client sends under `k`, the target receives
+    exactly `vs` under `prefix ++ k`.  Rests on `decodeBin_encodeStd`: `decodeBinHeader (StdEncoding.encode b)
+    = some b` for ALL byte strings `b` (proved over the base64 model by induction, no sampling). -/
+theorem C07_proxy_bin_roundtrip (pfx k : Bytes) (vs : List Bytes)
+    (hk : hasBinSuffix k = true) (hg : hasGwPrefix k = false) (hv : vs ≠ []) :
+    targetMD .proxy { allowReq := [k], prefixReq := pfx } { hdr := [(k, vs)] } = [(lower (pfx ++ k), vs)] := by
+  have hgb := grpcBin_of_hasBinSuffix k hk
+  have hk' := hasBinSuffix_append pfx k hk
+  have hne : (vs.map encodeStd).isEmpty = false := by cases vs with | nil => exact absurd rfl hv | cons _ _ => rfl
+  have hne' : vs.isEmpty = false := by cases vs with | nil => exact absurd rfl hv | cons _ _ => rfl
+  have hlen : ¬ (vs.map encodeStd).length < 1 := by cases vs with | nil => exact absurd rfl hv | cons _ _ => simp
+  have hdec : (vs.map encodeStd).filterMap decodeBinHeader = vs := by
+    rw [List.filterMap_map]
+    have : (decodeBinHeader ∘ encodeStd) = some := by funext b; exact decodeBin_encodeStd b
+    rw [this]; simp
+  rw [C07_all_entries]
+  simp only [toCtxMD, wireFormMetadata, List.map_cons, List.map_nil, hgb, ↓reduceIte, fromIncoming, List.foldl_cons,
+    List.foldl_nil, MD.put, filterRequest, reqStep, MD.get, MD.lookup, beq_self_eq_true, hlen, renameRaw, hg,
+    Bool.false_eq_true, decodeVals, hk', hdec, MD.set, hne']
+  unfold MD.delete
+  have := binSuffix_ne_timeout (pfx ++ k) hk'
+  simp [timeoutKey_lower, this]
+
+/-- D13, kernel-checked negative witness about the ORIGINAL proxy entry (`normalise := false`, the code
+    before the fix): allow-list `x-bin`; a gRPC client sends the 4 bytes `QUJD` as binary metadata `x-bin`;
+    grpc-go hands the proxy those 4 bytes; the target receives the 3 bytes `ABC` — not what the client sent.
+    With the entry point's normalisation (`normalise := true`) it receives `QUJD`. -/
 theorem C07_proxy_bin_fails :
     let o : Opts := { allowReq := [[120,45,98,105,110]] }
-    let r : Request := { hdr := [([120,45,98,105,110], [[81,85,74,68]])] }
+    let r : Request := { hdr := [([120,45,98,105,110], [[81,85,74,68]])], normalise := false }
     targetMD .proxy o r = [([120,45,98,105,110], [[65,66,67]])] ∧
-    reqSpec false o (items .proxy r) (targetMD .proxy o r) = false := by
+    reqSpec false o (items .proxy r) (targetMD .proxy o r) = false ∧
+    targetMD .proxy o { r with normalise := true } = [([120,45,98,105,110], [[81,85,74,68]])] := by
   decide
 
 /-- **Default options forward nothing, in either direction, on every entry point**, however the
